@@ -1,9 +1,7 @@
 """Batch driver: seeded runs over forked workers, evidence, violations, replay."""
-import concurrent.futures as cf
 import faulthandler
 import importlib
 import json
-import multiprocessing as mp
 import os
 import re
 import sys
@@ -44,68 +42,52 @@ def match_known(known, vclass, detail):
 
 
 def _run_chunk(indices):
-    out = []
     prop = _PROP
-    seeds = []
-    for i in indices:
-        seed = derive_seed(_BATCH_SEED, prop.ID, i)
-        r = runmod.execute(prop, seed, _TIER, index=i)
+    seeds = [derive_seed(_BATCH_SEED, prop.ID, i) for i in indices]
+    out = runmod.run_sequence(prop, [(sd, None, i) for sd, i in zip(seeds, indices)], _TIER)
+    for k, (r, i) in enumerate(zip(out, indices)):
         if r.status == 'ok' or r.status == 'skip':
             r.tape = None if (i % 997) else r.tape
             if i >= 3:
                 r.scenario = None
         else:
-            r.extra = list(seeds)          # the runs that preceded it in this process
-        seeds.append(seed)
-        out.append(r)
+            r.extra = seeds[:k]            # the runs that preceded it in this process
     return out
 
 
-def _worker(indices):
+def _init(pid, tier, batch_seed):
+    """start-up shared by the batch driver and by replay: identical steps in identical order, then the zygote"""
+    global _PROP, _TIER, _BATCH_SEED
+    from . import env
+    env.boot()
     import signal as _sg
     faulthandler.register(_sg.SIGUSR1, all_threads=True)
-    """One chunk = one forked child, so that the process state a run can see is
-    exactly the earlier runs of its chunk (recorded as the replay prefix)."""
-    import pickle
+    prop = load_prop(pid)
+    if hasattr(prop, 'setup'):
+        prop.setup()
+    _PROP, _TIER, _BATCH_SEED = prop, tier, batch_seed
+    return prop, _start_zygote(prop)
+
+
+def _start_zygote(prop):
+    """called at the same point of start-up by the batch driver and by replay, so both fork their runs from the same image"""
+    from . import zygote
+    runmod.set_iso_prop(prop)
+    zygote.register('chunk', _run_chunk)
     faulthandler.enable()
-    r, w = os.pipe()
-    pid = os.fork()
-    if pid == 0:
-        code = 0
-        try:
-            os.close(r)
-            data = pickle.dumps(_run_chunk(indices))
-            off = 0
-            while off < len(data):
-                off += os.write(w, data[off:off + 65536])
-        except BaseException:      # noqa
-            import traceback
-            traceback.print_exc()
-            code = 3
-        finally:
-            os._exit(code)
-    os.close(w)
-    chunks = []
-    while True:
-        b = os.read(r, 1 << 20)
-        if not b:
-            break
-        chunks.append(b)
-    os.close(r)
-    _, status = os.waitpid(pid, 0)
-    if chunks and not os.WIFSIGNALED(status) and os.WEXITSTATUS(status) == 0:
-        return pickle.loads(b''.join(chunks))
-    # the chunk died: find the run that kills the interpreter
+    return zygote.start(os.path.join(VERIF, '.build', 'run'))
+
+
+def _recover_crashed_chunk(indices, status):
+    """a chunk child died: find the run that kills the interpreter (each run alone, in its own child)"""
     out = []
     prop = _PROP
-    seeds = []
     for i in indices:
         seed = derive_seed(_BATCH_SEED, prop.ID, i)
         res = runmod.execute_isolated(prop, [], seed, _TIER)
         res.index = i
         if res.status == 'violation' and res.vclass == 'interpreter_crash':
-            # recover the tape by re-drawing it is not possible after a crash: replay by seed
-            res.tape = {'__seed__': [seed]}
+            res.tape = {'__seed__': [seed]}          # the tape cannot be recovered after a crash: replay by seed
         if res.status in ('ok', 'skip'):
             res.tape = None
             res.scenario = None
@@ -125,7 +107,7 @@ def _minimise_and_write(prop, r, tier, deadline=None):
     if r.vclass in ('no_progress', 'interpreter_crash'):   # re-executions are expensive / uninformative: do not minimise
         tape, last, n = None, None, 0
     else:
-        tape, prefix2, last, n = minimise(prop, r.tape, r.vclass, tier, prefix=prefix, deadline=deadline)
+        tape, prefix2, last, n = minimise(prop, r.tape, r.vclass, tier, prefix=prefix, deadline=deadline, seed=r.seed)
         if last is not None:
             prefix = prefix2
     reproduced = last is not None
@@ -134,7 +116,10 @@ def _minimise_and_write(prop, r, tier, deadline=None):
     if r.vclass in ('no_progress', 'interpreter_crash'):
         stable = None
     else:
-        chk = runmod.execute_isolated(prop, prefix, 0, tier, replay=tape, wall_limit=60)
+        if tape and '__seed__' in tape:
+            chk = runmod.execute_isolated(prop, prefix, tape['__seed__'][0], tier, replay=None, wall_limit=60)
+        else:
+            chk = runmod.execute_isolated(prop, prefix, 0, tier, replay=tape, wall_limit=60)
         stable = chk.status == 'violation' and chk.vclass == r.vclass and chk.digest == last.digest
     path = os.path.join(REPLAYS, '%s-%d.json' % (prop.ID, r.seed))
     with open(path, 'w') as f:
@@ -164,12 +149,7 @@ def run_check(pid, tier, batch_seed=None, nproc=None, runs=None, time_budget=Non
     t0 = time.time()
     if batch_seed is None:
         batch_seed = int(os.environ.get('VERIF_SEED', '0') or 0)
-    env.boot()
-    import signal as _sg
-    faulthandler.register(_sg.SIGUSR1, all_threads=True)
-    prop = load_prop(pid)
-    if hasattr(prop, 'setup'):
-        prop.setup()
+    prop, z = _init(pid, tier, batch_seed)
     nproc = nproc or int(os.environ.get('VERIF_NPROC', '0') or 0) or min(16, os.cpu_count() or 1)
     budget = prop.BUDGET[tier]
     n_runs = runs or int(os.environ.get('VERIF_RUNS', '0') or 0) or budget['runs']
@@ -184,49 +164,54 @@ def run_check(pid, tier, batch_seed=None, nproc=None, runs=None, time_budget=Non
     harness_errors = []
     violations = []
     stopped_early = False
-    ctx = mp.get_context('fork')
-    with cf.ProcessPoolExecutor(max_workers=nproc, mp_context=ctx) as ex:
-        pending = set()
-        it = iter(chunks)
-        def submit_more():
-            nonlocal stopped_early
-            while len(pending) < nproc * 2:
-                if time.time() - t0 > wall:
-                    stopped_early = True
-                    return
-                try:
-                    c = next(it)
-                except StopIteration:
-                    return
-                pending.add(ex.submit(_worker, c))
-        submit_more()
-        while pending:
-            done, _ = cf.wait(pending, timeout=600, return_when=cf.FIRST_COMPLETED)
-            if not done:
-                harness_errors.append(('driver', 'no worker progress for 600 s'))
-                for p in pending:
-                    p.cancel()
-                break
-            for d in done:
-                pending.discard(d)
-                try:
-                    rs = d.result()
-                except Exception as e:      # worker died
-                    harness_errors.append(('worker', repr(e)))
-                    continue
-                for r in rs:
-                    results.append(r)
-                    if r.status == 'violation':
-                        violations.append(r)
-                    elif r.status == 'harness_error':
-                        harness_errors.append((r.index, r.vclass, r.detail))
-            fresh = [v for v in violations if match_known(known, v.vclass, v.detail) is None]
-            if len(fresh) >= 40 or len(harness_errors) >= 5 or any(v.vclass == 'no_progress' for v in fresh):
-                for p in pending:
-                    p.cancel()
+    pending = {}
+    it = iter(chunks)
+
+    def submit_more():
+        nonlocal stopped_early
+        while len(pending) < nproc:
+            if time.time() - t0 > wall:
                 stopped_early = True
-                break
-            submit_more()
+                return
+            try:
+                c = next(it)
+            except StopIteration:
+                return
+            pending[z.submit('chunk', (c,))] = c
+
+    def handle(rs):
+        for r in rs:
+            results.append(r)
+            if r.status == 'violation':
+                violations.append(r)
+            elif r.status == 'harness_error':
+                harness_errors.append((r.index, r.vclass, r.detail))
+    crashed = []
+    submit_more()
+    while pending:
+        got = z.wait_any(600)
+        if got is None:
+            harness_errors.append(('driver', 'no progress for 600 s; outstanding chunks %s' % [c[:2] for c in pending.values()]))
+            break
+        rid, status, rs = got
+        c = pending.pop(rid)
+        if rs is None or status != 0:
+            crashed.append((c, status))
+        else:
+            handle(rs)
+        fresh = [v for v in violations if match_known(known, v.vclass, v.detail) is None]
+        if len(fresh) >= 40 or len(harness_errors) >= 5 or any(v.vclass == 'no_progress' for v in fresh):
+            stopped_early = True
+            break
+        submit_more()
+    # let outstanding chunks finish (their results are discarded) so that nothing competes with minimisation
+    drain_until = time.time() + 60
+    while pending and time.time() < drain_until:
+        got = z.wait_any(5)
+        if got is not None:
+            pending.pop(got[0], None)
+    for c, status in crashed[:3]:
+        handle(_recover_crashed_chunk(c, status))
     results.sort(key=lambda r: r.index)
     if os.environ.get('VERIF_DIGESTS'):
         with open(os.environ['VERIF_DIGESTS'], 'w') as f:
@@ -330,13 +315,19 @@ def write_evidence(prop, tier, seed, results, wall, n_viol_classes, known_hit, s
 
 
 def replay(path):
-    from . import env
-    env.boot()
-    with open(path) as f:
-        rec = json.load(f)
-    prop = load_prop(rec['property'])
-    if hasattr(prop, 'setup'):
-        prop.setup()
+    # the property id is taken from the file name when possible, so that nothing is parsed before the zygote exists
+    m = re.match(r'(C\d+)-', os.path.basename(path))
+    if m:
+        prop, _ = _init(m.group(1), 'quick', 0)
+        with open(path) as f:
+            rec = json.load(f)
+        if rec['property'] != m.group(1):
+            print('replay file name and content disagree on the property')
+            return 2
+    else:
+        with open(path) as f:
+            rec = json.load(f)
+        prop, _ = _init(rec['property'], 'quick', 0)
     tape = rec['tape']
     seed = 0
     if tape and '__seed__' in tape:         # crash replays are by seed (the tape could not be recovered)
@@ -346,7 +337,10 @@ def replay(path):
     print('replay status=%s class=%s digest=%s (recorded class=%s digest=%s)' %
           (r.status, r.vclass, r.digest, rec['violation']['class'], rec.get('event_log_digest')))
     print('detail:', r.detail)
-    print('scenario:', json.dumps(r.scenario, default=str)[:3000])
+    try:
+        print('scenario:', json.dumps(r.scenario, default=str)[:3000])
+    except BrokenPipeError:
+        pass
     if r.status == 'violation':
         print('VIOLATION property=%s replay=%s' % (rec['property'], path))
         return 1
